@@ -207,6 +207,42 @@ pub fn exec(case: &Case) -> String {
             put(&mut o, "bytes", || format!("{:?}", x.to_bytes_be()));
             put(&mut o, "u32d", || format!("{:?}", x.to_u32_digits()));
         }
+        "xs.bits" => {
+            let (sa, a) = case.z(0);
+            let i = case.u(1) as u64;
+            let x = bi(sa, a);
+            put(&mut o, "set1", || { let mut t = x.clone(); t.set_bit(i, true); hx(&t) });
+            put(&mut o, "set0", || { let mut t = x.clone(); t.set_bit(i, false); hx(&t) });
+            put(&mut o, "uset1", || { let mut t = x.magnitude().clone(); t.set_bit(i, true); hxu(&t) });
+            put(&mut o, "uset0", || { let mut t = x.magnitude().clone(); t.set_bit(i, false); hxu(&t) });
+            put(&mut o, "bit", || format!("{}", x.bit(i)));
+            put(&mut o, "ones", || format!("{},{}", x.magnitude().trailing_ones(), x.magnitude().count_ones()));
+            put(&mut o, "neg", || hx(&-&x));
+            put(&mut o, "inc", || { let mut t = x.clone(); t.inc(); hx(&t) });
+            put(&mut o, "dec", || { let mut t = x.clone(); t.dec(); hx(&t) });
+        }
+        "xs.bytes" => {
+            let b = case.b(0);
+            put(&mut o, "sle", || hx(&BigInt::from_signed_bytes_le(b)));
+            put(&mut o, "sbe", || hx(&BigInt::from_signed_bytes_be(b)));
+            put(&mut o, "ule", || hxu(&BigUint::from_bytes_le(b)));
+            put(&mut o, "ube", || hxu(&BigUint::from_bytes_be(b)));
+            put(&mut o, "rt", || format!("{:?}", BigInt::from_signed_bytes_le(b).to_signed_bytes_be()));
+            put(&mut o, "radix", || match BigUint::from_radix_be(b, 256) { Some(v) => hxu(&v), None => "NONE".into() });
+        }
+        "xs.euclid" => {
+            use num_traits::Euclid;
+            let (sa, a) = case.z(0);
+            let (sb, b) = case.z(1);
+            let (x, y) = (bi(sa, a), bi(sb, b));
+            put(&mut o, "euclid", || { let (q, r) = x.div_rem_euclid(&y); format!("{},{}", hx(&q), hx(&r)) });
+            put(&mut o, "ceil", || hx(&Integer::div_ceil(&x, &y)));
+            put(&mut o, "egcd", || { let e = x.extended_gcd(&y); format!("{},{},{}", hx(&e.gcd), hx(&e.x), hx(&e.y)) });
+            put(&mut o, "next", || hx(&x.next_multiple_of(&y)));
+            put(&mut o, "prev", || hx(&x.prev_multiple_of(&y)));
+            put(&mut o, "ismul", || format!("{}", x.is_multiple_of(&y)));
+            put(&mut o, "ucheckedsub", || format!("{:?}", num_traits::CheckedSub::checked_sub(x.magnitude(), y.magnitude()).map(|v| hxu(&v))));
+        }
         other => {
             let _ = write!(o, "unsupported {}", other);
         }
